@@ -54,14 +54,15 @@ static int mine(uint64_t h) { return (int)((h >> 20) % (unsigned)nshards) == sha
 
 // ------------------------------------------------------------------------------------------------ schedules
 #define NONE ((size_t)-1)
-typedef struct { size_t in_first, in_step, out_first, out_step; int late_finish; } sched;
-static const sched WHOLE = { NONE, 0, NONE, 0, 0 };
+typedef struct { size_t in_first, in_step, out_first, out_step; int late_finish; int nplan; unsigned char in_plan[4], out_plan[4]; } sched;	// nplan > 0: the first windows grow by in_plan[i] / out_plan[i] bytes (a different size for each call), then by the steps
+static const sched WHOLE = { NONE, 0, NONE, 0, 0, 0, { 0 }, { 0 } };
 static void sched_name(const sched *s, char *b, size_t bn) {
+	if (s->nplan) { snprintf(b, bn, "input windows %u,%u,%u,%u then the rest; output windows %u,%u,%u,%u then the rest", s->in_plan[0], s->in_plan[1], s->in_plan[2], s->in_plan[3], s->out_plan[0], s->out_plan[1], s->out_plan[2], s->out_plan[3]); return; }
 	snprintf(b, bn, "in(first=%ld,step=%zu) out(first=%ld,step=%zu)%s", s->in_first == NONE ? -1L : (long)s->in_first, s->in_step,
 		s->out_first == NONE ? -1L : (long)s->out_first, s->out_step, s->late_finish ? " late-FINISH" : "");
 }
 static const char *sched_kind(const sched *s) {
-	if (s->in_first != NONE) return "in-cut"; if (s->out_first != NONE) return "out-cut";
+	if (s->nplan) return "per-call-windows"; if (s->in_first != NONE) return "in-cut"; if (s->out_first != NONE) return "out-cut";
 	if (s->in_step && s->out_step) return "in+out-step"; if (s->in_step) return "in-step"; if (s->out_step) return "out-step";
 	return s->late_finish ? "late-finish" : "whole";
 }
@@ -101,8 +102,9 @@ static lzma_ret last_ret; static size_t last_out;
 static int drive_nc(lzma_next_coder *nc, const uint8_t *in, size_t n, uint8_t *out, const sched *sc, size_t stop_after_in) {
 	const size_t cap = n + 8;
 	size_t ip = 0, op = 0, il, ol; int stall = 0, all_given_seen = 0;
-	il = sc->in_first != NONE ? sc->in_first : sc->in_step ? sc->in_step : n; if (il > n) il = n;
-	ol = sc->out_first != NONE ? sc->out_first : sc->out_step ? sc->out_step : cap; if (ol > cap) ol = cap;
+	int pi = 0, po = 0;
+	il = sc->nplan ? sc->in_plan[pi++] : sc->in_first != NONE ? sc->in_first : sc->in_step ? sc->in_step : n; if (il > n) il = n;
+	ol = sc->nplan ? sc->out_plan[po++] : sc->out_first != NONE ? sc->out_first : sc->out_step ? sc->out_step : cap; if (ol > cap) ol = cap;
 	for (long it = 0; it < 64 + 4 * (long)cap; it++) {
 		lzma_action act = il == n && (!sc->late_finish || all_given_seen) ? LZMA_FINISH : LZMA_RUN;
 		if (il == n) all_given_seen = 1;
@@ -115,8 +117,8 @@ static int drive_nc(lzma_next_coder *nc, const uint8_t *in, size_t n, uint8_t *o
 		if (r != LZMA_OK) return Q_ERR;
 		if (ip >= stop_after_in) return Q_OK;		// abandoned on purpose (reuse tests)
 		int moved = ip != ip0 || op != op0 || (act == LZMA_RUN && il == n);
-		if (ip == il && il < n) { il += sc->in_step ? sc->in_step : n; if (il > n) il = n; moved = 1; }
-		if (op == ol && ol < cap) { ol += sc->out_step ? sc->out_step : cap; if (ol > cap) ol = cap; moved = 1; }
+		if (ip == il && il < n) { il += (sc->nplan && pi < sc->nplan) ? sc->in_plan[pi++] : sc->in_step ? sc->in_step : n; if (il > n) il = n; moved = 1; }
+		if (op == ol && ol < cap) { ol += (sc->nplan && po < sc->nplan) ? sc->out_plan[po++] : sc->out_step ? sc->out_step : cap; if (ol > cap) ol = cap; moved = 1; }
 		if (moved) stall = 0; else if (++stall > 2) return op > n ? Q_LEN : Q_STUCK;
 	}
 	return Q_STUCK;
